@@ -134,6 +134,7 @@ class Seams(object):
         self.rng_plan = None          # callable(shape)->ndarray or None (machine C)
         self.rng_requests = []
         self._real_stdout = None
+        self.op_seed = 0
 
     # ---------------------------------------------------------------- install
     def install(self):
@@ -177,7 +178,9 @@ class Seams(object):
         self.enabled = False
 
     # ---------------------------------------------------------------- per op
-    def begin_op(self, faults=(), stdout=True):
+    def begin_op(self, faults=(), stdout=True, seed=0):
+        self.op_seed = int(seed)
+        self._eigs_n = 0
         self.plan = [dict(f) for f in faults]
         self.op_counts = Counter()
         self.kernel_events = []
@@ -199,6 +202,7 @@ class Seams(object):
             self._real_stdout = None
         if self.sink.failed:
             self.fired["F-stdout"] += self.sink.failed
+            self.kernel_events.append(("stdout", None, "F-stdout", "write#%d" % self.sink.writes))
             self.sink.failed = 0
         ev = self.kernel_events
         self.kernel_events = []
@@ -229,12 +233,26 @@ class Seams(object):
         if isinstance(a0, np.ndarray):
             shape = tuple(a0.shape)
         self.calls[full] += 1
+        if kname == "arpack.eigs" and k.get("rng") is None:
+            # SciPy >= 1.17 restarts ARPACK from numpy.random.default_rng(None), i.e. OS entropy: a source of
+            # nondeterminism behind a dependency.  The simulator owns it: a Generator derived from the op's seed.
+            k = dict(k)
+            self._eigs_n += 1
+            k["rng"] = np.random.default_rng([self.op_seed & 0xFFFFFFFF, self._eigs_n])
+            self.probes["arpack_rng_owned"] += 1
+        if kname in ("expm_multiply", "sp.expm") and isinstance(a0, np.ndarray) and a0.ndim == 2 and a0.size:
+            # step cap: the cost of scaling-and-squaring grows with ||A||; a Krylov breakdown (beta ~ 1e-16) makes
+            # ||A|| ~ 1e16 (or NaN) and the call would run for hours.  The simulator bounds it: the call raises.
+            with np.errstate(all="ignore"):
+                nrm = float(np.max(np.sum(np.abs(a0), axis=0)))
+            if not (nrm <= 1.0e5):  # also catches NaN/inf
+                self.probes["work_budget_cut:" + kname] += 1
+                self.kernel_events.append((full, shape, "budget-cut"))
+                raise LinAlgError("simulated: work budget of %s exceeded (||A||_1 = %.3g)" % (kname, nrm))
         overwrite = bool(k.get("overwrite_a") or k.get("overwrite_b"))
         before = None
         if overwrite and isinstance(a0, np.ndarray):
             before = a0.copy()
-            if kname in ("sp.solve", "sp.lu_solve") and len(a) > 1 and isinstance(a[1], np.ndarray):
-                pass
         # ---- decide on a fault for this call
         eligible = True
         if full == "sp.svd/gesdd":
